@@ -92,6 +92,15 @@ func CDecompressSafe(src []byte) (dst cmem.CArray, err error) {
 		err = fmt.Errorf("bad sizeCompressed, expect %d, got %d", sizeC, len(src))
 		return
 	}
+	if len(src) < 9 {
+		// the C library reads the header fields with 4-byte loads: streams shorter than the long
+		// header are left to the (bounds-checked) Go decoder
+		var d []byte
+		if d, err = DecompressSafe(src); err == nil && dst.Alloc(len(d)) {
+			copy(dst.Body, d)
+		}
+		return
+	}
 	sizeD := SizeDecompressed(src)
 	if src[0]&1 == 0 && sizeC != sizeD+headerLen(src) {
 		// stored (not compressed) stream: qlz_decompress copies sizeD bytes from the source unchecked
